@@ -201,3 +201,26 @@ check("C11", "model_checking",
       "are observed through /proc and the file system only.",
       "TLC trace validation of recorded executions against the Resources.tla ledger + /proc cross-check",
       "DESIGN.md 3.9, 6 (C11)")
+check("C18", "other",
+      "Restricted claim (see level_note). Frag.tla's buffer discipline (every receive window inside the buffer's capacity, "
+      "starting at its current length, never beyond the announced total; returned length = sent length; nothing "
+      "truncated) is validated by TLC on recorded executions of message shapes around every packet boundary with 0, 1, "
+      "capacity-1 and capacity attachments and ENOBUFS retries; the Resources.tla ledger (munmap matches a live mapping, "
+      "no double free of control buffers, no close of an unowned descriptor, no slice from a null base or outside a live "
+      "mapping) is validated on the same runs and on zero-length and odd-length regions created from bytes and from a "
+      "fill byte at both public API levels, each batch in a sacrificial process.",
+      "A TLA+ model decides extent and lifetime discipline at the hook sites only; accesses that no hook reports, "
+      "use-after-free inside libc/kernel copies and compiler-level UB - i.e. the AddressSanitizer run the property's "
+      "quantifier text names - are NOT decided and not claimed (ASan would be a change of technique).",
+      "TLC trace validation against Frag.tla (buffer windows) and the Resources.tla ledger",
+      "DESIGN.md 6 (C18)")
+check("C19", "translation_validation",
+      "Channels.tla is the ideal unbounded-FIFO model the property names. Single-threaded programs = its one-agent "
+      "behaviours (exhaustive to 3 operations, TLC-simulated to 60 operations over 6 channels with typed and bytes "
+      "channels, regions, embedded endpoints, the three receive variants) and OneShot.tla behaviours without a blocked "
+      "accept; every program is executed on the os, memfd and in-process builds of the same interpreter and compared with "
+      "the model step by step (values, order, empty, disconnected, send ok/failed; error codes and select batching are "
+      "not compared), which also makes the three builds agree with each other.",
+      "Receiver sets are not yet part of the differential programs (unix sets: C06); macOS/Windows do not build here.",
+      "differential execution of TLC-generated programs on three builds against the TLA+ model",
+      "DESIGN.md 3.5, 6 (C19)")
